@@ -267,6 +267,19 @@ def cases(tier, seed):
             out.append(mk([a, b], False))
             if tier != "quick":
                 out.append(mk([a, b], True))
+    # n=3 "fan": a definition outside a 2-cycle that holds BOTH cycle members by value (so both are queued before either is processed);
+    # the outside definition sorts before or after the cycle; every by-value edge kind inside the cycle
+    for parent in (0, 2):
+        a, b = [i for i in range(3) if i != parent]
+        for ka in ("req", "opt"):
+            for kb in ("req", "opt", "tuple"):
+                for k1 in BYVAL:
+                    for k2 in BYVAL:
+                        nodes = [None, None, None]
+                        nodes[parent] = ("struct", ((ka, a), (kb, b)))
+                        nodes[a] = ("struct", ((k1, b),))
+                        nodes[b] = ("struct", ((k2, a),))
+                        out.append(mk(nodes, False))
     if tier != "quick":
         o3 = node_options(3, reduced=True)
         for a in o3:
